@@ -4,7 +4,7 @@ from vlib import docprop
 ID = 'C05'
 LEVEL = 'exploration'
 RULE = docprop.RULE_PREFIX + ('oracle on every pair of consecutive copied words of a flow with no generated text between them: class P (blank line, \\par or paragraph-forming environment between them) '
-        '-> the output between them contains a blank line; class S (a counting blank between them) -> non-empty pure white space without blank line; class G (no counting blank) -> no blank line. '
+        '-> the output between them contains a blank line; class S (a counting blank between them) -> non-empty pure white space without blank line; class G (no counting blank) -> no blank line; a pair in which one side is the text of a simple generating macro (\\LaTeX, \\ref, \\gls ..) with a counting blank between: at least one blank in the output. '
         'non-trivial = a pair whose source separation contains a vanishing construct, comment or delimiter on a line of its own or next to a paragraph break '
         '(approximated: the document has a line-break separator AND a vanishing/pass-through/comment construct); distinct by source text')
 ASSUMPTIONS = docprop.ASSUMPTIONS
@@ -24,8 +24,8 @@ def nontrivial(m, v):
 
 
 def classes(m, v):
-    c = sorted(m.features & {'own-line-brace', 'comment', 'par-env', 'par-macro', 'removed-env', 'skip-region', 'float-env', 'unknown-env', 'verbatim'})
-    for k in ('pairs_P', 'pairs_S', 'pairs_G'):
+    c = sorted(m.features & {'own-line-brace', 'comment', 'par-env', 'par-macro', 'removed-env', 'skip-region', 'float-env', 'unknown-env', 'verbatim', 'language-env'})
+    for k in ('pairs_P', 'pairs_S', 'pairs_G', 'pairs_Sw'):
         if v.counts.get(k):
             c.append(k)
     return c
